@@ -691,3 +691,47 @@ def own_payload_after_release(prog, chk, rid, fams=("Variant", "Xml::Variant"), 
                                 "parameter: the copy is taken from a payload this handle no longer keeps alive" % (f.r(args[k])[:60], n["callee"]))
                     elif k < len(args):
                         chk.ok(rid, f, "argument of %s is not this handle's payload" % n["callee"].split("::")[-1], f.where(c), f.r(args[k])[:50], nontrivial=False)
+
+
+# ----------------------------------------------------------------------------- argument inside the released payload
+
+def argument_after_release(prog, chk, rid, fams=("Variant", "Xml::Variant", "RefCount::Ptr"), floor=4):
+    """The payloads of these handles can themselves contain handles (a Variant holds lists and maps of Variants, the object behind a
+    RefCount::Ptr may have Ptr members): the argument of an assignment may live inside the payload the assignment releases
+    (`v = v.toList().front()`, `node = node->next`).  Everything needed from the argument must therefore be taken before the release."""
+    chk.rule(rid, "ORD under aliasing: in every assignment operator of a handle whose payload can contain such handles, no read through the "
+                  "reference argument is reachable from the release of the own payload (clear() / delete of the counted block)", floor=floor)
+    for fam in fams:
+        d = FAMILIES[fam]
+        for f in family_functions(prog, fam):
+            if f.short != "operator=" or len(f.params) != 1 or not f.params[0]["t"].rstrip().endswith("&"):
+                continue
+            other = f.params[0]
+            rel = [i for i in q.calls(f) if f.nodes[i].get("callee", "").endswith("::clear") and
+                   (q.call_object(f, i) is None or f.nodes[q.call_object(f, i)]["k"] == "CXXThisExpr")]
+            for i, n in enumerate(f.nodes):
+                if n["k"] == "CXXDeleteExpr" and n["c"]:
+                    t = q.no_casts(f.r(n["c"][0])).replace("this->", "")
+                    if t == d["ptr"]:
+                        rel.append(i)
+            reads = [i for i, n in enumerate(f.nodes) if n["k"] == "DeclRefExpr" and n["ref"].get("id") == other["id"] and f.node_pos(i) is not None]
+            where = "%s:%s" % (f.file, f.line)
+            if not rel:
+                chk.ok(rid, f, "assignment releases nothing itself", where, "no clear()/delete in this overload", nontrivial=False)
+                continue
+            bad = None
+            for r in rel:
+                for x in reads:
+                    if f.node_pos(x) != f.node_pos(r) and q.reaches(f, r, x):
+                        bad = (r, x)
+                        break
+                if bad:
+                    break
+            if bad:
+                chk.bad(rid, f, "argument-read-after-release:" + other["n"], f.where(bad[1]),
+                        "`%s` is read after `%s` released the own payload; when the argument lives inside that payload (an element of the "
+                        "list/map this handle owns, a Ptr member of the object it points to) it has been destroyed by then: read of freed "
+                        "memory" % (other["n"], f.r(bad[0])[:40]), evals=len(rel) * max(1, len(reads)))
+            else:
+                chk.ok(rid, f, "everything is taken from the argument before the own payload is released", where,
+                       "no release event reaches a read of `%s`" % other["n"], evals=len(rel) * max(1, len(reads)))
